@@ -4,6 +4,7 @@
                        (the attributes of the encoder instance `Language.filter_id` uses, i.e. after all of the
                        configuration plumbing: YAML -> LanguageConfig -> Language -> TokenEncoder.__init__)
   c09_impl.py run      stdin: {"cases": [[lang, id_type, string], ...], "twice": bool}
+                       optional "overrides": {config key: value} applied with set_target_language_configuration_override
                        stdout: {"out": ["ok:<token>" | "err:<ExceptionClass>", ...], "second": [...]} where `second`
                        is the result of calling filter_id again on the same arguments in the same process
                        (served by functools.lru_cache unless evicted)
@@ -16,10 +17,12 @@ import sys
 LANGS = ['c', 'cpp', 'py']
 
 
-def language(name):
+def language(name, overrides=None):
     from nunavut.lang import LanguageContextBuilder
-    return (LanguageContextBuilder(include_experimental_languages=True)
-            .set_target_language(name).create().get_target_language())
+    b = LanguageContextBuilder(include_experimental_languages=True).set_target_language(name)
+    for k, v in (overrides or {}).items():
+        b = b.set_target_language_configuration_override(k, v)
+    return b.create().get_target_language()
 
 
 def _handler(fn):
@@ -39,9 +42,11 @@ def _pmap(m):
 def dump():
     import builtins
     import keyword
+    import os
+    overrides = json.loads(os.environ.get('C09_OVERRIDES', 'null'))
     out = {'python': sys.version.split()[0], 'langs': {}}
     for name in LANGS:
-        lang = language(name)
+        lang = language(name, overrides)
         te = lang._token_encoder  # the instance filter_id strops with (cached property of the Language object)
         out['langs'][name] = {
             'language_class': type(lang).__module__ + '.' + type(lang).__qualname__,
@@ -94,7 +99,7 @@ def run():
     out, second = [], []
     for ln, ty, s in doc['cases']:
         if ln not in langs:
-            langs[ln] = language(ln)
+            langs[ln] = language(ln, doc.get('overrides'))
         out.append(one(langs[ln], ty, s))
     if doc.get('twice'):
         for ln, ty, s in doc['cases']:
